@@ -36,9 +36,9 @@ PER_CLASS_CI = ["tpr_ci", "tnr_ci", "fpr_ci", "fnr_ci", "tar_ci", "frr_ci", "trr
 def bounds(tier):
     if tier == "quick":
         return {"seq_len": {"2": 4, "3": 3}, "matrix_entries": [0, 1, 2], "N": [2, 3], "N3_stride": 7,
-                "leading_shapes": [[], [2], [2, 3], [2, 1, 2]], "weights": ["none", "ints", "floats"]}
+                "leading_shapes": [[], [2], [2, 3], [2, 1, 2]], "weights": ["none", "ints", "floats", "tiny"]}
     return {"seq_len": {"2": 5, "3": 4}, "matrix_entries": [0, 1, 2], "N": [2, 3, 4], "N3_stride": 1,
-            "leading_shapes": [[], [2], [2, 2], [0], [1, 3], [2, 3], [3, 1, 2]], "weights": ["none", "ints", "floats"]}
+            "leading_shapes": [[], [2], [2, 2], [0], [1, 3], [2, 3], [3, 1, 2]], "weights": ["none", "ints", "floats", "tiny"]}
 
 
 CLASS_SETS = [[0, 1], [0, 1, 2], ["b", "a", "c"]]
@@ -81,6 +81,8 @@ def _weights(kind, n):
         return None
     if kind == "ints":
         return [1 + (i * 2) % 3 for i in range(n)]
+    if kind == "tiny":  # importance weights of tiny magnitude (dyadic, so sums stay exact)
+        return [(1 + (i % 3)) * 2.0 ** -40 for i in range(n)]
     return [0.5 + 0.25 * (i % 4) for i in range(n)]
 
 
@@ -137,7 +139,7 @@ def check_cm_object(ctx, case, cm, m, classes):
         if tot == 0:
             if not (isinstance(acc, float) and math.isnan(acc)):
                 ctx.fail("accuracy-nan-on-empty", case, observed=acc, expected="nan")
-        elif not abs(acc - float(tr / tot)) <= 1e-15:
+        elif not (isinstance(acc, float) and abs(acc - float(tr / tot)) <= 1e-15):
             ctx.fail("accuracy-is-trace-over-population", case, observed=acc, expected=float(tr / tot))
     key = {"class_accuracy": "accuracy", "class_error_rate": "error_rate", "tar": "tpr", "frr": "fnr", "trr": "tnr",
            "far": "fpr", "acceptance_rate": "topr", "rejection_rate": "tonr"}
@@ -236,7 +238,7 @@ def run(item, ctx, tier, seed):
                                           f"print(ConfusionMatrix(labels={labels!r}, predictions={preds!r}, "
                                           f"weights={w!r}, classes={order!r}).matrix)\n"))
                     ctx.outcome(("pred", cm.matrix.tobytes()))
-                    if pi == 0 and wk == "none":
+                    if pi == 0 and wk in ("none", "tiny"):
                         check_cm_object(ctx, case, cm, mp, order)
                 # default classes (sorted union of the values that occur)
                 if wk == "none" and len(sq):
